@@ -13,6 +13,7 @@ type string = String.t     (* the extracted Coq `string` type shadows OCaml's; r
      hkx <sha384 0|1> <salt> <ikm>                                      psHkdfExtract model
      len12 <suite> <n> / len13 <n> <pad>                                protected record body length of an n-byte fragment
      skh <md5sha1|sha1|sha256|sha384|sha512> <cr> <sr> <params>         hash of the ServerKeyExchange signed content
+     es13 <sha384 0|1> <offered psk|-> <msg,..>                          Early Secret + Handshake Secret salt for the PSK the ServerHello selects
      labels                                                             the spec's label table: role=hex ...
      dg <hash> <msg,..>                                                 hash of the concatenated messages
      tbs13 <sha384 0|1> <server 0|1> <msg,..>                           CertificateVerify content over these messages
@@ -138,7 +139,13 @@ let hs13_line suite psk isres ecdhe blen msgs recs =
     let mvd_s = (match verify_data_model sha3 e.e_s_hs_traffic (transcript_hash h (let rec go l = match l with [] -> [] | m :: r -> if int_of_n (msg_type m) = 20 then [] else m :: go r in go ml)) with
                  | Ok v -> hx v | r -> show_res r) in
     let guard = if mvd_s <> hx t.t_server_finished then " MODEL<>SPEC[sfin " ^ mvd_s ^ "]" else "" in
-    let body = String.concat " " ([kv "early" e.e_early; kv "binder_key" e.e_binder_key; kv "binder" t.t_binder; kv "c_e" e.e_c_e_traffic;
+    let eo = t.t_offered in
+    (* the model of tls13GenerateEarlySecret's keep-or-regenerate logic for both roles against the spec's Early Secret *)
+    let m_es role = (match (if role then server_early_secret_model else client_early_secret_model) sha3 (opt psk) t.t_psk_selected with
+                     | Ok st -> hx st.es_value | _ -> "rc") in
+    let guard = guard ^ (if m_es false <> hx e.e_early || m_es true <> hx e.e_early then " MODEL<>SPEC[early " ^ m_es false ^ " " ^ m_es true ^ "]" else "") in
+    let body = String.concat " " (["sel=" ^ (if t.t_psk_selected then "1" else "0"); kv "early" e.e_early; kv "early_off" eo.e_early; kv "hs_salt" t.t_hs_salt;
+                        kv "binder_key" eo.e_binder_key; kv "binder" t.t_binder; kv "c_e" eo.e_c_e_traffic;
                         kv "hs" e.e_handshake; kv "c_hs" e.e_c_hs_traffic; kv "s_hs" e.e_s_hs_traffic; kv "master" e.e_master;
                         kv "c_ap" e.e_c_ap_traffic; kv "s_ap" e.e_s_ap_traffic; kv "exp" e.e_exp_master; kv "res" e.e_res_master;
                         kv "c_e_key" t.t_c_e_key; kv "c_e_iv" t.t_c_e_iv;
@@ -173,6 +180,12 @@ let () = iter_lines (fun l ->
     (match suite_of (n_of_hex suite) with Some s -> string_of_int (int_of_nat (body_len12 s (nat (int_of_string nn)))) | None -> "UNKNOWN-SUITE")
   | ["len13"; nn; pad] -> string_of_int (int_of_nat (body_len13 (nat (int_of_string nn)) (nat (int_of_string pad))))
   | ["skh"; name; cr; sr; params] -> hx (hash_by_name name (ske_signed_content (un cr) (un sr) (un params)))
+  | ["es13"; sha3; psk; msgs] ->
+    (* Early Secret / Handshake Secret salt for the PSK the ServerHello selects (sessions that did not complete) *)
+    let h = if sha3 = "1" then SHA384 else SHA256 in
+    let ml = msgs_of msgs in
+    let sel = selected_psk (if psk = "-" then None else Some (un psk)) ml in
+    "sel=" ^ (if psk_selected ml then "1" else "0") ^ " " ^ kv "early" (early_secret_of h sel) ^ " " ^ kv "hs_salt" (handshake_salt h sel)
   | ["labels"] -> String.concat " " (List.map (fun (r, l) -> String.concat "" (List.map (fun c -> String.make 1 (Char.chr (int_of_n c))) r) ^ "=" ^ hx l) rfc_labels)
   | ["dg"; name; msgs] -> hx (hash_by_name name (List.concat (msgs_of msgs)))
   | ["tbs13"; sha3; server; msgs] ->
